@@ -552,6 +552,13 @@ func buildReplayTest(fr *FuncResult, o *Obligation, vals map[string]string) (src
 // runReplayTest injects the test with -overlay and runs it; ok = the violation was confirmed.
 func runReplayTest(fn, src string) (string, bool) {
 	pkgShort := fn[:strings.Index(fn, ".")]
+	// a state builder may live in another package than the function of its obligation (e.g. the
+	// store-level call a web handler makes): `// govc-replay-package: <dir>`
+	for _, l := range strings.Split(src, "\n") {
+		if strings.HasPrefix(l, "// govc-replay-package:") {
+			pkgShort = strings.TrimSpace(strings.TrimPrefix(l, "// govc-replay-package:"))
+		}
+	}
 	repo := repoDir()
 	pkgDir := filepath.Join(repo, pkgShort)
 	testPath := filepath.Join(pkgDir, "zz_govc_replay_test.go")
